@@ -11,6 +11,8 @@ GUARD = "PYDCOP_VERIF"
 if str(REPO) not in sys.path:
     sys.path.insert(0, str(REPO))
 os.environ.setdefault(GUARD, "1")
+import logging  # noqa: E402
+logging.disable(logging.CRITICAL)
 
 
 def seed():
@@ -68,6 +70,7 @@ class Verdict:
         self.findings = [f for f in load_findings() if f.get("property") == prop and f.get("kind") == "finding"]
         self.violations = []      # (key, what, replay)
         self.known = {}           # finding index -> count
+        self.known_example = {}
         self.cov = {"evaluations": 0, "distinct_nontrivial": 0, "rule": "", "samples": [],
                     "states": 0, "transitions": 0, "traces_validated_against_impl": 0,
                     "exhaustive": False, "tlc_runs": [], "trusted_base": []}
@@ -92,6 +95,7 @@ class Verdict:
         for i, f in enumerate(self.findings):
             if _key_matches(f["key"], key):
                 self.known[i] = self.known.get(i, 0) + 1
+                self.known_example.setdefault(i, (key, what, replay))
                 return False
         self.violations.append((key, what, replay))
         return True
@@ -107,6 +111,9 @@ class Verdict:
         for i, f in enumerate(self.findings):
             if i in self.known:
                 print("KNOWN-FINDING: property=%s %s (seen %d times in this run)" % (self.prop, f["what"], self.known[i]))
+                key, what, replay = self.known_example[i]
+                (rdir / ("%s_%s_known_%d.json" % (self.prop, self.tier, i))).write_text(
+                    json.dumps({"property": self.prop, "key": key, "what": what, "replay": replay}, indent=1, default=str))
         vio_lines = []
         seen = set()
         for n, (key, what, replay) in enumerate(self.violations):
@@ -120,6 +127,12 @@ class Verdict:
             path.write_text(json.dumps({"property": self.prop, "key": key, "what": what, "replay": replay},
                                        indent=1, default=str))
             vio_lines.append("VIOLATION property=%s replay=%s  # %s" % (self.prop, path, what))
+        classes = {}
+        for key, what, replay in self.violations:
+            k2 = json.dumps({k: v for k, v in key.items() if k not in ("shape",)}, sort_keys=True, default=str)
+            classes[k2] = classes.get(k2, 0) + 1
+        for k2, n in sorted(classes.items()):
+            print("violation-class n=%d %s" % (n, k2))
         for d in self.divergences[:10]:
             print("DIVERGENCE property=%s %s" % (self.prop, d))
         cov = dict(self.cov)
